@@ -390,6 +390,13 @@ def thorough_extras(prop, reg, under, a, t0):
         hit = bool(r.get('confirmed')) and not r.get('error')
         extras['proactive_replays'].append(dict(battery=getattr(fn, '__name__', str(fn)), as_obligation=name, failing_input_found=hit,
                                                 detail=str(r.get('detail'))[:400]))
+        if hit and getattr(fn, 'demonstrates_known_finding', None):
+            # a battery that exists to demonstrate a RECORDED finding (known_findings.json): its hit is that finding, not a new violation
+            kf = [f for f in load_known(prop)[0] if re.search(fn.demonstrates_known_finding, f['obligation'])]
+            if kf:
+                print(f"KNOWN-FINDING: property={prop} {kf[0]['what']}")
+                extras['proactive_replays'][-1]['known_finding'] = True
+                continue
         if hit:
             path = os.path.join(OUT, 'out', prop, safe_name(f"replay-battery_{getattr(fn, '__name__', 'fn')}") + '.json')
             json.dump(dict(property=prop, obligation=name, kind='proactive replay battery', result=r), open(path, 'w'), indent=1, default=str)
